@@ -212,3 +212,17 @@ Proof.
   apply f_inj in E; [subst; exact Hp'|exact Dp|eapply clD; eauto].
 Qed.
 End HomD.
+
+(* quadratic-form obstruction with a domain *)
+Section QuadD.
+Variables (P : Type) (mul : P -> P -> P) (anti : P -> P -> bool) (D : P -> Prop) (q : P -> bool) (G : P -> Prop).
+Hypothesis D_mul : forall a b, D a -> D b -> D (mul a b).
+Hypothesis G_D : forall g, G g -> D g.
+Hypothesis q_mul : forall a b, D a -> D b -> q (mul a b) = xorb (xorb (q a) (q b)) (anti a b).
+Hypothesis q_gen : forall g, G g -> q g = true.
+Theorem cl_quadratic_D p : Cl P mul anti G p -> D p /\ q p = true.
+Proof.
+  induction 1 as [g Hg|a b _ [Da IHa] _ [Db IHb] Hab]; [split; auto|]. split; [auto|].
+  rewrite q_mul, IHa, IHb, Hab by assumption. reflexivity.
+Qed.
+End QuadD.
